@@ -2,11 +2,13 @@
 
 (A) chunked transfer: PROOF (coq/theories/Asset/Xfer.v, XferProofs.v, Props/C20.v) + extracted-model
     vs real Xfer / XferManager / TransferManager correspondence + impl-level oracle.
-(B) legacy schema line framing: PROOF over a generic record schema (Asset/Schema.v) instantiated at
-    the live dataclass schemas (gen/C20_schema.v) - see harness/props/c20_schema.py helpers.
-(C) everything else in the statement (inventory through legacy text / legacy LLSD / AIS LLSD,
-    lookup-name enums, animations, mesh) is an IMPL-LEVEL ORACLE on the real code only
-    (harness/props/c20_codecs.py), no theorem is claimed for it.
+(B) legacy schema: PROOF of the line framing (Asset/Schema.v), of the typed field kinds with concrete digit
+    conversions (Asset/Digits.v) and of the generic record round-trip (Asset/Record.v), instantiated at the live
+    dataclass schemas (gen/C20_records.v, harness/translate/c20_records.py); lookup-name enums: generated
+    exhaustive theorems; LLSD flavours: SchemaBase.to_llsd/from_llsd per-node dict round-trip (Asset/Llsd.v,
+    gen/C20_llsd.v).
+(C) whole InventoryModels incl. the AIS overrides, wearables, animations, mesh: IMPL-LEVEL ORACLE on the real
+    code only (harness/translate/c20_codecs.py), no theorem is claimed for them.
 """
 from __future__ import annotations
 
@@ -35,11 +37,30 @@ TRUSTED = [
     "(B) modelled by hand: the token regex _SCHEMA_LINE_TOKENS_RE as an explicit scanner, valid for the stripped non-empty "
     "lines _yield_schema_tokens passes to it (Wearable's direct calls on unstripped lines are not modelled), str.strip()/"
     "str.isspace()/regex \\s as one 29-code-point predicate (compared with CPython over all 0x110000 code points on every run), "
-    "StringIO.readline as a list of lines split at LF, SchemaMultilineStr; proved: field line, block and multi-line string "
-    "framing. The typed field kinds (int/hex/date/UUID/enum/embedded LLSD), nested-record assembly into dataclasses and the LLSD "
-    "flavours are NOT proved (impl-level oracle (C))",
-    "(C) NOT PROVED, implementation-level oracle only: InventoryModel through legacy text / legacy LLSD / AIS LLSD, lookup-name "
-    "enums, llanim Animation, mesh LLMeshSerializer round-trips are checked by running the real code on generated values "
+    "StringIO.readline as a list of lines split at LF; InventoryBase.to_writer / from_reader (token loop, nested from_reader of "
+    "block fields, obj_dict, cls(**obj_dict) with defaults / TypeError) as a state machine over lines; the field kinds SchemaStr, "
+    "SchemaMultilineStr, SchemaInt, SchemaHexInt, SchemaFlagField, SchemaDate, SchemaUUID, SchemaEnumField with concrete digit "
+    "conversions. PROVED: framing, every kind's text round-trip, the generic record round-trip for any well-formed schema "
+    "(nesting depth <= 2 is built into the schema type; the translator fails closed on deeper schemas), instantiated at the live "
+    "dataclass schemas regenerated every run (gen/C20_records.v)",
+    "(B) oracles inside the record model (assumed, exercised by the correspondence, not proved): int()/int(.,16)/uuid.UUID() are "
+    "modelled on the canonical spellings the serialisers write (CPython accepts more: whitespace, '+', '_', '0x', braces/urn:, "
+    "upper case); SchemaDate is modelled on POSIX seconds (calendar.timegm/utcfromtimestamp inverse on naive whole-second "
+    "datetimes in range is assumed); embedded LLSD (SchemaLLSD) is carried as its XML text (llsd.format_xml/parse_xml inverse "
+    "assumed); InventoryNodeBase._obj_from_dict's `type == \"-1\"` skip (never true after deserialisation) is not modelled; "
+    "InventoryModel (the set of nodes, add(), duplicate ids) is not modelled - the theorem is per node with an arbitrary tail",
+    "(2) lookup-name enums: the to/from tables in gen/C20_records.v are obtained by CALLING to_lookup_name on every member and "
+    "from_lookup_name on every name produced; the theorem is exhaustive over the members with the exception list "
+    "(FolderType 26, known finding) explicit and itself proved to fail; from_lookup_name accepts further spellings (raw member "
+    "names, any case) that are not in the tables",
+    "(3) LLSD flavours: SchemaBase.to_llsd/from_llsd with generated per-class/per-flavour key tables and per-kind value "
+    "conversions is modelled and its per-node dict round-trip proved (obj_dict keyed by LLSD key instead of field.name: a "
+    "bijection checked by the translator); the AIS overrides InventoryCategory.to_llsd/from_llsd (type dropped/re-added) and "
+    "InventoryItem.to_llsd/from_llsd (agent_id, link items) and InventoryModel.from_llsd/to_llsd are NOT modelled (oracle (C)); "
+    "LLSD wire serialisation (XML/binary/notation) is out of scope (C12)",
+    "(C) NOT PROVED, implementation-level oracle only: whole InventoryModels through legacy text / legacy LLSD / AIS LLSD (incl. "
+    "the AIS overrides), Wearables, llanim Animations (both versions), mesh LLMeshSerializer round-trips are checked by running "
+    "the real code on generated values "
     "(harness/props/c20_codecs.py); zlib, numpy, llsd (binary/XML) and the serialization spec library are exercised, not modelled",
 ]
 
